@@ -26,7 +26,8 @@ import (
 )
 
 type entry struct {
-	Kind string `json:"kind"` // dir | reg | sym | hard | fifo
+	Kind string `json:"kind"`          // dir | reg | sym | hard | fifo | cont (contiguous file, '7') | char | block
+	GNU  bool   `json:"gnu,omitempty"` // header written in GNU format (long names as GNU long-name records) instead of PAX
 	Name string `json:"name"`
 	Link string `json:"link,omitempty"`
 	Data string `json:"data,omitempty"` // ascii content
@@ -58,6 +59,11 @@ func skeleton() []initNode {
 		{Path: "o2/o1/s1.txt", Kind: "file", Data: "S1"},
 		{Path: "o2/o1/other", Kind: "dir"},
 		{Path: "o2/o1/other/s0.txt", Kind: "file", Data: "S0"},
+		// siblings whose names extend the destination's name
+		{Path: "o2/o1/dest-backup", Kind: "dir"},
+		{Path: "o2/o1/dest-backup/keep.txt", Kind: "file", Data: "KEEP"},
+		{Path: "o2/o1/dest.bak", Kind: "file", Data: "BAK"},
+		{Path: "o2/o1/dest2", Kind: "dir"},
 	}
 }
 
@@ -94,6 +100,7 @@ type obj struct {
 	Data   string `json:"data,omitempty"`
 	Target string `json:"target,omitempty"`
 	Ino    uint64 `json:"ino"`
+	Perm   uint32 `json:"perm"`
 	Leader string `json:"leader,omitempty"` // first path (sorted) with the same inode
 }
 
@@ -104,7 +111,7 @@ func snapshot(root string) []obj {
 			return nil
 		}
 		rel, _ := filepath.Rel(root, p)
-		o := obj{Path: rel}
+		o := obj{Path: rel, Perm: uint32(info.Mode().Perm())}
 		if st, ok := info.Sys().(*syscall.Stat_t); ok {
 			o.Ino = st.Ino
 		}
@@ -155,6 +162,11 @@ func writeArchive(entries []entry) []byte {
 	tw := tar.NewWriter(gz)
 	for _, e := range entries {
 		h := &tar.Header{Name: e.Name, Mode: 0o644, Format: tar.FormatPAX}
+		if e.GNU {
+			h.Format = tar.FormatGNU
+		} else if len(e.Name)%3 == 1 {
+			h.PAXRecords = map[string]string{"comment": "x", "MM.note": e.Kind}
+		}
 		switch e.Kind {
 		case "dir":
 			h.Typeflag, h.Mode = tar.TypeDir, 0o755
@@ -166,11 +178,17 @@ func writeArchive(entries []entry) []byte {
 			h.Typeflag, h.Linkname = tar.TypeLink, e.Link
 		case "fifo":
 			h.Typeflag = tar.TypeFifo
+		case "cont":
+			h.Typeflag, h.Size = tar.TypeCont, int64(len(e.Data))
+		case "char":
+			h.Typeflag, h.Devmajor, h.Devminor = tar.TypeChar, 1, 3
+		case "block":
+			h.Typeflag, h.Devmajor, h.Devminor = tar.TypeBlock, 7, 0
 		}
 		if err := tw.WriteHeader(h); err != nil {
 			panic(err)
 		}
-		if e.Kind == "reg" {
+		if e.Kind == "reg" || e.Kind == "cont" {
 			tw.Write([]byte(e.Data))
 		}
 	}
@@ -295,7 +313,7 @@ func genCase(r *vh.Rand) kase {
 		if benign && !r.Chance(1, 8) {
 			e.Name = plain()
 		}
-		switch x := r.Intn(20); {
+		switch x := r.Intn(23); {
 		case x < 5:
 			e.Kind = "dir"
 		case x < 11:
@@ -324,8 +342,12 @@ func genCase(r *vh.Rand) kase {
 				e.Link = regs[r.Intn(len(regs))]
 			}
 		default:
-			e.Kind = "fifo"
+			e.Kind = []string{"fifo", "cont", "cont", "char", "block"}[r.Intn(5)]
+			if e.Kind == "cont" {
+				e.Data = fmt.Sprintf("cont%d", i)
+			}
 		}
+		e.GNU = r.Chance(1, 4)
 		// re-use the name of an earlier entry (repeated directory entries, a directory
 		// or file later replaced by a link of the same name, entries below it afterwards)
 		if len(k.Entries) > 0 && r.Chance(1, 4) {
@@ -387,6 +409,19 @@ func witnesses() []kase {
 		{Note: "checked directory replaced by a link, then mkdir / hard link / link through it", Init: d, Entries: []entry{
 			{Kind: "sym", Name: "a", Link: "."}, {Kind: "dir", Name: "d"}, {Kind: "reg", Name: "f", Data: "F"}, {Kind: "dir", Name: "d"}, {Kind: "sym", Name: "d", Link: "a/.."},
 			{Kind: "dir", Name: "d/newdir"}}},
+		{Note: "chain into a sibling whose name extends the destination's name: a -> ., b -> a/../dest-backup, write b/evil.txt", Init: d, Entries: []entry{
+			{Kind: "sym", Name: "a", Link: "."}, {Kind: "sym", Name: "b", Link: "a/../dest-backup"}, {Kind: "reg", Name: "b/evil.txt", Data: "EVIL"}}},
+		{Note: "chain onto a sibling file whose name extends the destination's name", Init: d, Entries: []entry{
+			{Kind: "sym", Name: "a", Link: "."}, {Kind: "sym", Name: "b", Link: "a/../dest.bak"}, {Kind: "reg", Name: "b", Data: "EVIL"}}},
+		{Note: "links only (extraction succeeds): nothing outside may change, permission bits included", Init: d, Entries: []entry{
+			{Kind: "sym", Name: "a", Link: "."}, {Kind: "sym", Name: "b", Link: "a/.."}, {Kind: "sym", Name: "c", Link: "a/../s1.txt"}, {Kind: "sym", Name: "e", Link: "a/../other"}, {Kind: "reg", Name: "f", Data: "F"}}},
+		{Note: "contiguous-file entry (typeflag 7) named like a link that leaves the destination", Init: d, Entries: []entry{
+			{Kind: "dir", Name: "a"}, {Kind: "sym", Name: "a/b", Link: "."}, {Kind: "sym", Name: "a/l", Link: "b/../../s1.txt"}, {Kind: "cont", Name: "a/l", Data: "EVIL"}}},
+		{Note: "rare typeflags through a link", Init: d, Entries: []entry{
+			{Kind: "sym", Name: "a", Link: "."}, {Kind: "sym", Name: "up", Link: "a/.."}, {Kind: "cont", Name: "up/evil7", Data: "EVIL"}, {Kind: "char", Name: "up/c"}, {Kind: "block", Name: "up/b"}, {Kind: "fifo", Name: "up/p"}}},
+		{Note: "long names (GNU long-name records / PAX path records)", Init: d, Entries: []entry{
+			{Kind: "dir", Name: strings.Repeat("a", 120), GNU: true}, {Kind: "reg", Name: strings.Repeat("a", 120) + "/" + strings.Repeat("b", 130), Data: "L", GNU: true},
+			{Kind: "reg", Name: strings.Repeat("c", 140) + "/f", Data: "P"}, {Kind: "sym", Name: "l", Link: strings.Repeat("a", 120), GNU: true}}},
 		{Note: "plain traversal names", Init: d, Entries: []entry{{Kind: "reg", Name: "../evil", Data: "EVIL"}}},
 		{Note: "absolute name", Init: d, Entries: []entry{{Kind: "reg", Name: "/evil", Data: "EVIL"}}},
 		{Note: "escaping link target", Init: d, Entries: []entry{{Kind: "sym", Name: "l", Link: "../other"}, {Kind: "reg", Name: "l/evil", Data: "EVIL"}}},
@@ -480,7 +515,7 @@ func main() {
 	} else {
 		cases = witnesses()
 		rnd := c.Rand.Fork() // Fork decorrelates the streams of neighbouring seeds
-		n := c.N(400, 12000)
+		n := c.N(340, 12000)
 		for i := 0; i < n; i++ {
 			cases = append(cases, genCase(rnd))
 		}
@@ -503,7 +538,11 @@ func main() {
 		before := snapshot(root)
 		archive := writeArchive(k.Entries)
 		var xerr error
-		pan := vh.Recover(func() { xerr = filetransfer.UntarDirectory(bytes.NewReader(archive), filepath.Join(root, destRel)) })
+		// the way an uploaded directory really arrives: StreamHandler.WriteUploadedFile(isDirectory = true)
+		up := filetransfer.NewStreamHandler(filetransfer.StreamConfig{Enabled: true, AllowedPaths: []string{"*"}})
+		pan := vh.Recover(func() {
+			_, xerr = up.WriteUploadedFile(filepath.Join(root, destRel), bytes.NewReader(archive), 0o644, true, false)
+		})
 		after := snapshot(root)
 		os.RemoveAll(root)
 
@@ -590,6 +629,8 @@ func monitor(c *vh.Ctx, k kase, before, after []obj) {
 			c.Fail("untar-replaced-outside", fmt.Sprintf("%s outside the destination was replaced (%s -> %s)", o.Path, old.Kind, o.Kind), k)
 		case old.Data != o.Data:
 			c.Fail("untar-modified-outside", fmt.Sprintf("%s outside the destination was overwritten (%q -> %q)", o.Path, old.Data, o.Data), k)
+		case old.Perm != o.Perm && o.Kind != "sym":
+			c.Fail("untar-chmod-outside", fmt.Sprintf("the permission bits of %s outside the destination were changed (%04o -> %04o)", o.Path, old.Perm, o.Perm), k)
 		}
 	}
 	destAfter := false
